@@ -19,8 +19,11 @@ JOBS = 8
 COQ_IMPORTS = "From DS Require Import Check.C01."
 TRUSTED = ["large cases are checked in Python with exact Fractions (no Coq evaluation at 65k rows); the theorem "
            "C06_kernel_efficiency covers every size in exact arithmetic"]
-ASSUMPTIONS = ["precision clause: no a-priori rounding bound is proved (partial); it is measured at every size against "
-               "exact rational arithmetic with a tolerance that does not scale with n"]
+ASSUMPTIONS = ["precision clause: C06_rounded_efficiency bounds the rounding error of the kernel for every rounding operator of "
+               "relative error eps (standard model of floating-point arithmetic; binary64: eps = 2^-53, no overflow / underflow) "
+               "by ((1+eps)^(3n+T+1) - 1) * mean total variation -- linear in n, not uniform; that the hardware operations satisfy "
+               "the standard model is assumed (IEEE 754), and the measured error of every large case is compared with the proved "
+               "bound and with a tolerance that does not scale with n"]
 WORKER_TIMEOUT = 3000
 
 
@@ -183,7 +186,23 @@ def run_impl(c):
     rhs = full - null
     err = abs(total - rhs)
     tol = Fraction(1, 10 ** 9) * Fraction(float(max(np.max(np.abs(U)), np.max(np.abs(nulls)), 1e-300)))
-    return {"large": True, "units": int(len(s)), "err": float(err), "tol": float(tol), "ok": bool(err <= tol),
+    # the PROVED forward error bound (C06_rounded_efficiency, standard model of binary64 arithmetic, eps = 2^-53):
+    #   |sum(scores) - rhs| <= ((1 + eps)^(3 * units + n_test + 1) - 1) * mean_j TV_j,
+    # TV_j = total variation of the utility along the rank order of validation point j (down to the null score)
+    n_units = int(len(s))
+    seg = np.repeat(np.arange(len(reps)), reps) if c["grouping"] == "fork" else np.arange(n)
+    tv_sum = 0.0
+    for j in range(t):
+        o = np.lexsort((np.arange(n), D[:, j], seg))              # rows by (unit, distance, row): first row of a unit = its argmin
+        first = o[np.concatenate(([True], seg[o][1:] != seg[o][:-1]))]
+        rank = first[np.argsort(D[first, j], kind="stable")]
+        useq = np.concatenate((U[labels[rank], j], [nulls[j]]))
+        tv_sum += float(np.sum(np.abs(np.diff(useq))))
+    mean_tv = tv_sum / t * (1 + 1e-9)
+    proved = math.expm1((3 * n_units + t + 1) * math.log1p(2.0 ** -53)) * mean_tv * (1 + 1e-9)
+    within_proved = bool(err <= Fraction(proved)) if proved > 0 else bool(err == 0)
+    return {"large": True, "units": n_units, "err": float(err), "tol": float(tol), "ok": bool(err <= tol) and within_proved,
+            "proved_bound": proved, "err_over_proved_bound": float(err) / proved if proved > 0 else 0.0, "within_proved_bound": within_proved,
             "rel_err": float(err / tol * Fraction(1, 10 ** 9)) if tol else 0.0, "nonzero": rhs != 0,
             "finite": bool(np.all(np.isfinite(s)))}
 
@@ -217,8 +236,10 @@ def distribution(cases, outs):
     from collections import Counter
     large = [(c, o) for c, o in zip(cases, outs) if c["kind"] == "large" and isinstance(o, dict) and "err" in o]
     return {"kinds": dict(Counter(c["kind"] for c in cases)),
-            "large_sizes_rows_x_points": ["%dx%d:%s units=%s rel_err=%.2e" % (c["n_train"], c["n_test"], c["grouping"], o["units"], o["rel_err"])
+            "large_sizes_rows_x_points": ["%dx%d:%s units=%s rel_err=%.2e err/proved_bound=%.2e" % (
+                                              c["n_train"], c["n_test"], c["grouping"], o["units"], o["rel_err"], o.get("err_over_proved_bound", -1))
                                           for c, o in large],
+            "large_cases_within_proved_rounding_bound": sum(1 for _, o in large if o.get("within_proved_bound")),
             "max_relative_error_large": max([o["rel_err"] for _, o in large] or [0.0]),
             "game_methods": dict(Counter(c["method"] for c in cases if c["kind"] == "game")),
             "real_utility_cases": dict(Counter(c["metric"] for c in cases if c["kind"] == "real")),
@@ -237,14 +258,28 @@ def shrink(c):
                 yield dict(c, n_train=max(n, c["classes"]), n_test=t)
 
 
+# functions of the implementation this property is anchored in: their line coverage under the correspondence cases is
+# measured on the staged copy and reported in the evidence (implementation_line_coverage)
+ANCHORS = [
+    "datascope/importance/shapley.py:ShapleyImportance._shapley_neighbor",
+    "datascope/importance/shapley.py:compute_shapley_1nn_mapfork",
+    "datascope/importance/shapley.py:ShapleyImportance._shapley_bruteforce",
+    "datascope/importance/shapley.py:ShapleyImportance._shapley_montecarlo",
+]
+
 MANIFEST = {
     "text": "Proof: C06_kernel_efficiency / C06_neighbor_efficiency (the K=1 scores of all units sum to the mean over "
             "validation points of nearest-unit utility minus null, every size, exact arithmetic, through C01 and the "
             "Shapley efficiency axiom) C06_shapley_efficiency (any game), C06_bruteforce_efficiency (the MODEL of the bruteforce loop, every provenance and "
             "utility incl. failing coalitions), C06_add_efficiency (the MODEL of compute_shapley_add, any K, any conjunctive "
-            "provenance, distinct distances) and C06_mc_efficiency (untruncated montecarlo on every run). Tied to "
-            "the code at API level; the precision clause ('does not degrade with the number of rows') is PARTIAL: no "
-            "a-priori rounding bound is proved, it is measured on every run up to 8k (quick) / 65 536 (thorough) rows "
+            "provenance, distinct distances), C06_mc_efficiency (untruncated montecarlo on every run) and, for the precision clause, "
+            "C06_rounded_score / C06_rounded_efficiency: the rounding-aware model of the kernel (Model/KernelRound.v: every "
+            "floating-point operation = rnd of the exact result) stays within ((1+eps)^(3n+T+1)-1) * (absolute-value recurrence) of "
+            "the exact model for EVERY rounding operator of relative error eps -- hence |sum scores - (full - null)| <= "
+            "((1+eps)^(3n+T+1)-1) * mean total variation, about (3n+T) * 1.1e-16 for binary64. Tied to "
+            "the code at API level; the precision clause ('does not degrade with the number of rows') is PARTIAL: the "
+            "proved bound grows linearly with n (it is what the standard model gives) and rests on the assumption that the hardware's "
+            "binary64 operations satisfy the standard model; in addition the error is measured on every run up to 8k (quick) / 65 536 (thorough) rows "
             "against exact rational arithmetic with a size-independent tolerance of 1e-9*max|utility|.",
     "note": "Trusted: Coq kernel + vm_compute; harness; large sizes use exact Python Fractions instead of Coq "
             "evaluation. Floating-point error growth is measured, not proved.",
